@@ -38,7 +38,8 @@ Judge(c, r) ==
                                   pos |-> offset + r.n, closedcase |-> FALSE]
          [] c.api = "WriteAt" -> [data |-> WriteOK(content, badb, c.off, c.data, r.n, r.err, r.after), pos |-> offset, closedcase |-> FALSE]
          [] c.api = "Write"   -> [data |-> WriteOK(content, badb, offset, c.data, r.n, r.err, r.after), pos |-> offset + r.n, closedcase |-> FALSE]
-         [] c.api = "ReadFrom" -> [data |-> ReadFromOK(content, badb, offset, c.data, r.n, r.consumed, r.err, r.after, r.pos), pos |-> r.pos, closedcase |-> FALSE]
+         [] c.api = "ReadFrom" -> [data |-> ReadFromOK(content, badb, offset, c.data, r.n, r.consumed, r.err, r.after, r.pos),
+                                   pos |-> IF badb = {} THEN offset + r.n ELSE r.pos, closedcase |-> FALSE]
          [] c.api = "Seek"    -> LET s == SeekResult(offset, Len(content), c.off, c.whence) IN
                                  [data |-> r.err = s.err /\ r.n = s.pos /\ r.after = content, pos |-> s.pos, closedcase |-> FALSE]
          [] c.api = "Stat"    -> [data |-> r.err = "" /\ r.n = Len(content) /\ r.after = content, pos |-> offset, closedcase |-> FALSE]
